@@ -11,6 +11,8 @@ ROOT = os.path.join(os.path.dirname(os.path.dirname(os.path.abspath(__file__))),
 NOTE = {
     "C02-m1": "not a VIOLATION by construction (yaml.dump option, text layer); the check ends with exit 3: its preflight finds that the "
               "text-layer stub no longer describes what ODMLWriter('YAML').to_string does",
+    "C07-m4": "missed by construction: the failure happens in file.write after a successful open (a lone surrogate the file encoder rejects); "
+              "partial writes after open are outside the claim and the serialisers are stubs",
     "C16-m4": "missed by construction: an lxml parser option (huge_tree) that matters only for documents nested deeper than ~330 levels",
     "C16-m2": "missed by construction: lxml entry point from_file(stream) on malformed XML (text layer)",
     "C19-m2": "missed by construction: differs only between processes with different hash seeds",
